@@ -711,6 +711,7 @@ Definition step (s : st) (e : event) : st * ret * list attempt :=
   | EFail k => (upd_reg s (mkReg (r_info (s_reg s)) (r_counter (s_reg s)) k (r_mode (s_reg s))), RNone, [])
   | ERegMode m => (upd_reg s (mkReg (r_info (s_reg s)) (r_counter (s_reg s)) (r_fail (s_reg s)) m), RNone, [])
   | EAddWait snap place =>
+      if 1 <? r_mode (s_reg s) then (s, RCode CRegErr, []) else      (* getCurrentPartitionNodes fails *)
       let '(res, r, w) := add_and_wait_snap (s_ans s) (s_reg s) place snap in
       (upd_reg s r, match res with AWOk => RCode COk | AWErr => RCode CRegErr | AWPanic => RPanic end, w)
   | EAuto b =>
